@@ -41,6 +41,7 @@ type BTWorld struct {
 	SendFail  func(kind string, n int) bool // return true to fail the n-th Send of a stream
 	SendYield bool
 	closed    bool
+	rows      []*yRows // every engine handle handed out (closed at Destroy)
 }
 
 func scratchDir(prefix string) string {
@@ -62,10 +63,10 @@ func NewBTWorld(r *Run, engine string, clk *Clock, dir string) *BTWorld {
 	opt := bttest.Options{Clock: func() bigtable.Timestamp { return bigtable.Timestamp(clk.ServerUs) }}
 	switch engine {
 	case engBtree:
-		opt.Storage = yStorage{bttest.BtreeStorage{}}
+		opt.Storage = yStorage{bttest.BtreeStorage{}, &w.rows}
 		w.svc = bttest.VerifNewMemService(opt)
 	case engLdbMem:
-		opt.Storage = yStorage{bttest.LeveldbMemStorage{}}
+		opt.Storage = yStorage{bttest.LeveldbMemStorage{}, &w.rows}
 		w.svc = bttest.VerifNewMemService(opt)
 	case engLdbDisk:
 		if w.Dir == "" {
@@ -73,7 +74,7 @@ func NewBTWorld(r *Run, engine string, clk *Clock, dir string) *BTWorld {
 		}
 		opt.Storage = yStorage{bttest.LeveldbDiskStorage{Root: w.Dir, ErrLog: func(err error, msg string) {
 			w.ErrLog = append(w.ErrLog, fmt.Sprintf("%s: %v", msg, err))
-		}}}
+		}}, &w.rows}
 		srv, err := bttest.NewServerWithOptions("127.0.0.1:0", opt)
 		if err != nil {
 			harnessErr("NewServerWithOptions: %v", err)
@@ -101,6 +102,16 @@ func (w *BTWorld) Close() {
 
 func (w *BTWorld) Destroy() {
 	w.Close()
+	for _, yr := range w.rows {
+		if !yr.closed {
+			yr.closed = true
+			func() {
+				defer func() { recover() }()
+				yr.in.Close()
+			}()
+		}
+	}
+	w.rows = nil
 	if w.Dir != "" {
 		os.RemoveAll(w.Dir)
 	}
@@ -108,16 +119,29 @@ func (w *BTWorld) Destroy() {
 
 // ---- yielding storage pass-through ----------------------------------------------------------
 
-type yStorage struct{ in bttest.Storage }
+// yStorage also remembers every Rows it handed out: the server never closes the engine handle
+// of a deleted table, so the world closes what is still open when it is destroyed (a worker
+// process runs thousands of worlds).
+type yStorage struct {
+	in  bttest.Storage
+	all *[]*yRows
+}
+
+func (s yStorage) track(r *yRows) *yRows {
+	if s.all != nil {
+		*s.all = append(*s.all, r)
+	}
+	return r
+}
 
 func (s yStorage) Create(t *btapb.Table) bttest.Rows {
 	hookYield("stor.Create")
-	return &yRows{in: s.in.Create(t)}
+	return s.track(&yRows{in: s.in.Create(t)})
 }
 func (s yStorage) GetTables() []*btapb.Table { hookYield("stor.GetTables"); return s.in.GetTables() }
 func (s yStorage) Open(t *btapb.Table) bttest.Rows {
 	hookYield("stor.Open")
-	return &yRows{in: s.in.Open(t)}
+	return s.track(&yRows{in: s.in.Open(t)})
 }
 func (s yStorage) SetTableMeta(t *btapb.Table) { hookYield("stor.SetTableMeta"); s.in.SetTableMeta(t) }
 
@@ -129,7 +153,10 @@ func (s yStorage) DeleteTable(t *btapb.Table) {
 	}
 }
 
-type yRows struct{ in bttest.Rows }
+type yRows struct {
+	in     bttest.Rows
+	closed bool
+}
 
 func yIter(it bttest.RowIterator) bttest.RowIterator {
 	return func(r *btpb.Row) bool {
@@ -154,7 +181,7 @@ func (r *yRows) Clear()                      { hookYield("rows.Clear"); r.in.Cle
 func (r *yRows) Delete(k []byte)             { hookYield("rows.Delete"); r.in.Delete(k) }
 func (r *yRows) Get(k []byte) *btpb.Row      { hookYield("rows.Get"); return r.in.Get(k) }
 func (r *yRows) ReplaceOrInsert(x *btpb.Row) { hookYield("rows.Put"); r.in.ReplaceOrInsert(x) }
-func (r *yRows) Close()                      { r.in.Close() }
+func (r *yRows) Close()                      { r.closed = true; r.in.Close() }
 
 // ---- wire round trip ------------------------------------------------------------------------
 
